@@ -326,6 +326,8 @@ def bitmap_spec(rng, k, color=False, forced=None):
     strikes = []
     # one bit depth per font, so that a failure is attributable to it
     bd = 32 if color else forced[0] if forced else rng.choice([1, 2, 4, 8])
+    # component glyphs (formats 8 / 9) only in fonts that are about them, so that the pixel formats are not masked by them
+    with_comps = forced[1] in (8, 9) if forced else rng.random() < 0.4
     for si in range(rng.randint(1, 3)):
         subtables = []
         gid = 1
@@ -333,7 +335,7 @@ def bitmap_spec(rng, k, color=False, forced=None):
             if forced and si == 0 and sti == 0:
                 imf, ixf = forced[1], forced[2]
             else:
-                imf = rng.choice([1, 2, 5, 6, 7, 8, 9] if not color else [17, 18, 19, 17, 18, 1])
+                imf = rng.choice([17, 18, 19, 17, 18, 1] if color else [1, 2, 5, 6, 7, 8, 9] if with_comps else [1, 2, 5, 6, 7])
                 ixf = rng.choice([2, 5] if imf in (5, 19) else [1, 2, 3, 4, 5])
             fixed = ixf in (2, 5)
             n = rng.randint(1, 4)
